@@ -2,10 +2,13 @@ SPECIFICATION Spec
 CONSTANTS MaxLen = 3
  MaxNum = 3
  MaxPlan = 2
+ Profile = "lines"
 INVARIANT OperationalEqualsDeclarative
 INVARIANT RunIsIncremental
 INVARIANT OneSubtestPerTestLine
 INVARIANT BadStaysBad
+INVARIANT VerdictOverExitDomain
+INVARIANT UnrepresentableIsIgnored
 INVARIANT TypeOK
 CHECK_DEADLOCK FALSE
-POSTCONDITION EmitAlphabet
+POSTCONDITION Export
